@@ -228,6 +228,8 @@ def run_replays(specs, timeout=600, env_extra=None):
     env.pop('NUMBA_DISABLE_JIT', None)
     env['PYTHONPATH'] = REPO + os.pathsep + VERIF
     env['PYTHONWARNINGS'] = 'ignore'
+    for k in ('OPENBLAS_NUM_THREADS', 'OMP_NUM_THREADS', 'MKL_NUM_THREADS', 'NUMBA_NUM_THREADS'):
+        env.setdefault(k, '1')      # small matrices: threads only add CPU time and scheduling noise
     env.update(env_extra or {})
     p = subprocess.run([PY if os.path.exists(PY) else sys.executable, '-m', 'pvf.replay', '--batch'],
                        input=json.dumps(specs, default=str), capture_output=True, text=True,
